@@ -1,9 +1,10 @@
-"""Unit resolver_unwraps: two `unwrap()`s on values that depend on the program text.
+"""Unit resolver_unwraps: `unwrap()`s on values that depend on the program text.
 
 Real code under contract:
   prqlc/prqlc/src/semantic/resolver/expr.rs  Resolver::fold_expr: the arm `FuncCall { name, args, .. } if <std.not applied to a tuple> => { let arg = args.into_iter().exactly_one().unwrap(); .. }`
                                              (guard + first statement, slice)
   prqlc/prqlc/src/semantic/lowering.rs       lower_table_ref, arm `pl::ExprKind::Array`: the closure that turns a column of the relation literal into its name (slice)
+  prqlc/prqlc/src/semantic/resolver/names.rs resolve_ident_wildcard: the statements in front of `let mut res = ..` (slice); prqlc-parser pr/ident.rs Ident::pop (whole)
 """
 import re
 
@@ -12,9 +13,11 @@ from extract import ExtractionError, code_tokens, match_brace
 
 EXPR_RS = "prqlc/prqlc/src/semantic/resolver/expr.rs"
 LOWERING = "prqlc/prqlc/src/semantic/lowering.rs"
+NAMES = "prqlc/prqlc/src/semantic/resolver/names.rs"
+IDENT = "prqlc/prqlc-parser/src/parser/pr/ident.rs"
 
-LABELS = ["XA1", "LN1"]
-FUNCTIONS = ["exclusion_arg", "literal_column_name"]
+LABELS = ["XA1", "LN1", "WS1", "IP1"]
+FUNCTIONS = ["exclusion_arg", "literal_column_name", "wildcard_self", "pop"]
 RLIMIT = 60
 
 ASSUMED = [
@@ -23,13 +26,18 @@ ASSUMED = [
              "is_std_not; itertools' exactly_one() is Ok exactly for a one-element vector; enum_as_inner's as_single() is Some exactly for RelationColumn::Single; "
              "Option<String>::clone is the identity; the error value is built by an external function",
      "keys": ["pub enum ExprKind", "pub struct Expr", "fn exactly_one", "fn as_single", "fn clone_opt_string", "fn named_error"]},
+    {"what": "Ident is the real struct {path, name}; `a + b` on idents (impl Add) appends b's segments to a's; Ident::from_name(s) is the one-segment ident s; derived Clone "
+             "returns an equal value; Vec::pop has its vstd contract; format!(..) is an unknown text",
+     "keys": ["fn ident_add", "fn ident_from_name", "fn clone_ident", "fn opaque_text", "spec fn segs"]},
 ]
 TRUSTED = [
     "oracle (C12): the resolver and the lowering return a value or an error for every program; `!{a} {b}` (std.not applied to a tuple and something else) and a relation "
     "literal whose fields have no names (`from [{1, 2}]`) are programs",
     "precondition of exclusion_arg (parser, not verified): a function call has at least one argument; precondition of literal_column_name (the statement just above it in "
     "the same arm, not verified): every column of the literal is RelationColumn::Single - a star was turned into an error there",
-    "the slices drop the rest of the two functions",
+    "oracle (C12), wildcard: `*` can be written without a relation in front of it (`` select {`*`} ``, `` from `*` ``): resolve_ident_wildcard is called for EVERY ident whose "
+    "name is `*`, also one with an empty path - it must answer with an error, not unwrap the missing parent (WS1: no precondition on the path)",
+    "the slices drop the rest of the functions",
 ]
 
 PRELUDE = r"""
@@ -52,6 +60,12 @@ impl RelationColumn {
 }
 #[verifier::external_body] pub fn clone_opt_string(o: &Option<String>) -> (r: Option<String>) ensures r == *o, { unimplemented!() }
 #[verifier::external_body] pub fn named_error(span: Option<Span>) -> Error { unimplemented!() }
+pub open spec fn segs(i: Ident) -> Seq<String> { i.path@.push(i.name) }
+#[verifier::external_body] pub fn ident_add(a: Ident, b: Ident) -> (r: Ident) ensures segs(r) == segs(a) + segs(b), { unimplemented!() }
+#[verifier::external_body] pub fn ident_from_name(s: &str) -> (r: Ident) ensures r.path@.len() == 0, r.name@ == s@, { unimplemented!() }
+#[verifier::external_body] pub fn clone_ident(i: &Ident) -> (r: Ident) ensures r == *i, { unimplemented!() }
+#[verifier::external_body] pub fn opaque_text() -> String { unimplemented!() }
+pub const NS_SELF: &'static str = "_self";
 """
 
 
@@ -115,13 +129,38 @@ def build(X):
                   "    ensures\n"
                   "        c->Single_0 == Some(r), // @LN1\n"
                   "{\n    " + g.text + "\n}\n")
-    return PRELUDE + f.text + "\n" + g.text + "\n} // verus!\nfn main() {}\n"
+    # ---- wildcard: the relation in front of `*`
+    ident_t = X.type_item(IDENT, "struct", "Ident").drop_attrs()
+    pop = X.fn(IDENT, "pop").pub_all()
+    pop.desugar_option_closures()
+    pop.ret_name("r")
+    pop.contract("""
+        ensures
+            // the parent: None exactly for an ident without a path
+            (self.path@.len() == 0 <==> r is None) && (r is Some ==> segs(r->0) =~= self.path@), // @IP1
+    """)
+    w = X.slice(NAMES, "resolve_ident_wildcard", "{", "let mut res =", name="wildcard_self", include_end=False)
+    w.text = w.text[1:].strip()
+    w.drop_logging()
+    w.rewrite_re("R5", r"\bident\.clone\(\)", "clone_ident(ident)", count=None, why="derived Clone")
+    w.rewrite_re("R5", r"\bformat!\((?:[^()]|\([^()]*\))*\)", "opaque_text()", count=None, why="format!: unknown text")
+    w.desugar_option_closures()
+    w.rewrite_re("R5", r"\bIdent::from_name\(NS_SELF\)", "ident_from_name(NS_SELF)", count=None, why="Ident::from_name")
+    w.rewrite_re("R5", r"([\w.()]+(?:\([^()]*\))?(?:\.\w+\(\))*) \+ ident_from_name\(NS_SELF\)", r"ident_add(\1, ident_from_name(NS_SELF))", count=None, why="impl Add for Ident")
+    w.text = ("pub fn wildcard_self(ident: &Ident) -> (r: Result<Ident, String>)\n"
+              "    ensures\n"
+              "        // `rel.*` asks for rel._self; a `*` without a relation is an error (no panic: the function has no precondition)\n"
+              "        match r { Ok(i) => ident.path@.len() > 0 && segs(i).len() == ident.path@.len() + 1, Err(_) => ident.path@.len() == 0 }, // @WS1\n"
+              "{\n    " + w.text + "\n    Ok(ident_self)\n}\n")
+    w.rewrites.append({"rule": "slice", "what": "statements of resolve_ident_wildcard in front of `let mut res = ..` wrapped as fn wildcard_self(ident) -> Ok(ident_self)"})
+    return PRELUDE + ident_t.text + "\nimpl Ident {\n" + pop.text + "\n}\n" + f.text + "\n" + g.text + "\n" + w.text + "\n} // verus!\nfn main() {}\n"
 
 
 # ----------------------------------------------------------------------------- replay on the real compiler
 INPUTS = {
     "exclusion_arg": ["from t\nderive x = (std.not {a} {b})\n", "from t\nselect (std.not {a} {b})\n", "from t\nselect !{a}\n"],
     "literal_column_name": ["from [{1, 2}]\n", "from [{a = 1, 2}]\n", "from [{a = 1, b = 2}]\n", "from t\nappend [{1}]\n"],
+    "wildcard_self": ["from t\nselect {`*`}\n", "from `*`\n", "from t\nfilter `*` > 1\n", "from t\nselect {t.*}\n", "from t\nselect {x.*}\n"],
 }
 
 
@@ -133,7 +172,7 @@ def _try(src):
 
 def replay(failure):
     ob = failure.get("obligation", "")
-    ob = ob.replace("XA1", "exclusion_arg").replace("LN1", "literal_column_name")
+    ob = ob.replace("XA1", "exclusion_arg").replace("LN1", "literal_column_name").replace("WS1", "wildcard_self")
     keys = [k for k in INPUTS if k in ob] or list(INPUTS)
     for k in keys:
         for src in INPUTS[k]:
